@@ -26,6 +26,22 @@ import (
 	"github.com/open2b/scriggo/native"
 )
 
+// collapseRuns keeps the earliest element of every run of panics with the
+// same printed value.
+func collapseRuns(chain []string) []string {
+	var out []string
+	prev := ""
+	for i, e := range chain {
+		v := strings.TrimSuffix(e, " [recovered]")
+		if i > 0 && v == prev {
+			continue
+		}
+		out = append(out, e)
+		prev = v
+	}
+	return out
+}
+
 func TestC12(t *testing.T) {
 	harness.Main(t, harness.Check{Prop: "C12", Exec: exec, Prepare: prepare, ShrinkBudget: 60})
 }
@@ -77,7 +93,7 @@ func gcRun(p gcref.Prog, k int, kind string) gcref.Result {
 		return r
 	}
 	b := bundleFor(p)
-	r = b.Run(p.Key(), []string{strconv.Itoa(k), kind}, nil, 20*time.Second)
+	r = b.Run(p.Key(), []string{strconv.Itoa(k), kind}, nil, 2*time.Minute)
 	mu.Lock()
 	gcCache[ck] = r
 	mu.Unlock()
@@ -112,7 +128,7 @@ func prepare(mk func(i int, mask map[string]bool) *harness.Run, from, to int, ma
 	for _, p := range progs {
 		jobs = append(jobs, gcref.Job{Key: p.Key(), Args: []string{"0", "none"}})
 	}
-	res := b.RunMany(jobs, 16, 20*time.Second)
+	res := b.RunMany(jobs, 4, 2*time.Minute)
 	var jobs2 []gcref.Job
 	var keys2 []string
 	for i, p := range progs {
@@ -133,7 +149,7 @@ func prepare(mk func(i int, mask map[string]bool) *harness.Run, from, to int, ma
 			keys2 = append(keys2, fmt.Sprintf("%s|%d|%s", p.Key(), k, kind))
 		}
 	}
-	res2 := b.RunMany(jobs2, 16, 20*time.Second)
+	res2 := b.RunMany(jobs2, 4, 2*time.Minute)
 	for i, k := range keys2 {
 		gcCache[k] = res2[i]
 	}
@@ -619,6 +635,12 @@ func exec(r *harness.Run) *harness.Violation {
 				ws[i] += " [recovered]"
 			}
 		}
+		// gc (1.23+) prints a panic whose value is identical to the one of the
+		// panic it superseded only once ("X [recovered, repanicked]", or plain
+		// "X"), so the flags of the later ones cannot be read back from its
+		// output: both chains are compared with runs of equal values reduced
+		// to their earliest element.
+		gs, ws = collapseRuns(gs), collapseRuns(ws)
 		if strings.Join(gs, " | ") != strings.Join(ws, " | ") {
 			// Sub-class: gc's chain is a subsequence of Scriggo's (stale or
 			// duplicated entries that gc has already dropped).
@@ -637,12 +659,24 @@ func exec(r *harness.Run) *harness.Violation {
 			}
 			return harness.Violf(cls("wrong-chain"), "%s: panic chain (earliest first) is [%s], gc has [%s]", ctx, strings.Join(gs, " | "), strings.Join(ws, " | "))
 		}
-		for _, e := range got {
+		for i, e := range got {
 			id, _, ok := idOf(e.text)
 			if !ok {
 				harness.Fail("cannot decode statement id from panic text %q", e.text)
 			}
 			if p.DeferredPoints[id] {
+				continue
+			}
+			if i > 0 && e.text == got[i-1].text && len(p.RepanicPoints) > 0 {
+				// A recovered value panicked again by a `panic(r)` statement:
+				// the position is the one of that statement.
+				fileIdx := 0
+				if e.path == skel.FileOf(1000) || e.path == pkgOf(1000) {
+					fileIdx = 1
+				}
+				if !p.RepanicPoints[fileIdx*1000+e.line] {
+					return harness.Violf(cls("wrong-position"), "%s: panic %q, raised again after being recovered, reports %s:%d, which is not a `panic(r)` statement", ctx, e.text, e.path, e.line)
+				}
 				continue
 			}
 			// For programs Scriggo reports the package path ("main", "m/sub1"),
